@@ -14,6 +14,7 @@ import (
 	"runtime"
 	"runtime/debug"
 	"strings"
+	"time"
 )
 
 // PointKind distinguishes scheduling decisions from environment decisions.
@@ -645,4 +646,12 @@ func CtxAfterFunc(ctx interface {
 		}
 		return false
 	}
+}
+
+// Sleep stands for time.Sleep in instrumented code: no time passes, but every
+// other thread may run before the sleeper continues (sound: a real sleep only
+// guarantees a lower bound, and no oracle measures time).
+func Sleep(d time.Duration) {
+	_ = d
+	Yield("time.Sleep")
 }
